@@ -2,6 +2,7 @@ package main
 
 import (
 	"fmt"
+	"os"
 	"go/ast"
 	"go/constant"
 	"go/token"
@@ -189,7 +190,7 @@ func (x *Exec) loadTyped(st *State, t types.Type, r *Term) *Term {
 	if x.spec == 0 {
 		st.assume(x.typeInv(t, v, st, 1))
 	} else {
-		x.axiomIfClosed(x.typeInv(t, v, st, 1))
+		x.specInvAxiom(t, v, st)
 	}
 	if v.Op == "select" && len(v.Args) == 2 && v.Args[0].IsLeaf() && strings.HasSuffix(v.Args[0].Op, "@0") && x.alloc0 != nil && !v.Bound {
 		// a reference read from the heap of the pre-state was allocated before the call
@@ -208,6 +209,108 @@ func (x *Exec) loadTyped(st *State, t types.Type, r *Term) *Term {
 // in spec mode the state may be a snapshot; type invariants of loaded values
 // are facts about the heap and are recorded as axioms when they do not mention
 // the allocator of a different state.
+// specInvAxiom records, for a value loaded while evaluating a specification,
+// the type invariant of the loads from heap variables it may stand for. A heap
+// variable denotes a well-typed heap whatever path is taken, so these facts
+// are universal. A value that was stored on the current path (the load was
+// simplified to it, or it sits in a store the load goes through) is NOT
+// covered: its invariant holds under that path's condition only - e.g.
+// len(s[:n-1]) >= 0 where the bounds check n >= 1 was assumed - and stating it
+// as an axiom would make every other path infeasible.
+func (x *Exec) specInvAxiom(t types.Type, v *Term, st *State) {
+	ls := pureLoadsOf(v)
+	if os.Getenv("HVC_PUREDEBUG") != "" {
+		str := v.String()
+		if len(str) > 3000 {
+			str = str[:3000]
+		}
+		fmt.Fprintf(os.Stderr, "PURE %d %s :: %s\n", len(ls), t, str)
+	}
+	for _, u := range ls {
+		x.axiomIfClosed(x.typeInv(t, u, st, 1))
+	}
+}
+
+func pureLoadsOf(v *Term) []*Term {
+	if p, ok := purify(v); ok {
+		return []*Term{p}
+	}
+	if v.Op == "ite" && len(v.Args) == 3 {
+		return append(pureLoadsOf(v.Args[1]), pureLoadsOf(v.Args[2])...)
+	}
+	return nil
+}
+
+// purify: v with every store removed from the heaps it loads from (so that it
+// speaks about heap variables only), or false when v contains a constructed
+// value other than a struct of loads.
+func purify(v *Term) (*Term, bool) {
+	switch {
+	case v.QVars != nil:
+		return nil, false
+	case v.IsLeaf():
+		// a literal, or an unknown introduced earlier: nothing but its own
+		// invariant (assumed where it was introduced) constrains it
+		return v, true
+	case v.Op == "select" && len(v.Args) == 2:
+		h, ok := stripStores(v.Args[0])
+		if !ok {
+			return nil, false
+		}
+		if h == v.Args[0] {
+			return v, true
+		}
+		return Select(h, v.Args[1]), true
+	case v.Op == "ite" && len(v.Args) == 3:
+		a, ok1 := purify(v.Args[1])
+		b, ok2 := purify(v.Args[2])
+		if !ok1 || !ok2 {
+			return nil, false
+		}
+		if a == v.Args[1] && b == v.Args[2] {
+			return v, true
+		}
+		return Ite(v.Args[0], a, b), true
+	case strings.HasPrefix(v.Op, "mk!"):
+		// a struct value read field by field
+		args := make([]*Term, len(v.Args))
+		same := true
+		for i, a := range v.Args {
+			p, ok := purify(a)
+			if !ok {
+				return nil, false
+			}
+			args[i] = p
+			same = same && p == a
+		}
+		if same {
+			return v, true
+		}
+		return App(v.Op, v.Sort, args...), true
+	}
+	return nil, false
+}
+
+func stripStores(h *Term) (*Term, bool) {
+	switch {
+	case h.IsLeaf():
+		return h, true
+	case h.Op == "store" && len(h.Args) == 3:
+		return stripStores(h.Args[0])
+	case h.Op == "ite" && len(h.Args) == 3:
+		a, ok1 := stripStores(h.Args[1])
+		b, ok2 := stripStores(h.Args[2])
+		if !ok1 || !ok2 {
+			return nil, false
+		}
+		if a == h.Args[1] && b == h.Args[2] {
+			return h, true
+		}
+		return Ite(h.Args[0], a, b), true
+	}
+	return nil, false
+}
+
 func (x *Exec) axiomIfClosed(t *Term) {
 	if !t.Bound {
 		x.axiom(t)
@@ -353,7 +456,7 @@ func (x *Exec) evalSelector(st *State, e *ast.SelectorExpr) *Term {
 					if x.spec == 0 {
 						st.assume(x.typeInv(f.Type(), v, st, 1))
 					} else {
-						x.axiomIfClosed(x.typeInv(f.Type(), v, st, 1))
+						x.specInvAxiom(f.Type(), v, st)
 					}
 					cur, curT = v, f.Type()
 				} else {
